@@ -1,6 +1,7 @@
 package main
 
 import (
+	"os"
 	"encoding/json"
 
 	"verifharness/gram"
@@ -101,3 +102,8 @@ func buildUsable(w *Worker, c *GCase) (*ref.Grammar, *ygo.Result, *ygo.View, str
 }
 
 func refOf(c *GCase) *ref.Grammar { return ref.FromSpec(c.Spec) }
+
+func readFile(p string) (string, error) {
+	b, err := os.ReadFile(p)
+	return string(b), err
+}
